@@ -631,6 +631,11 @@ class _NPRec:
         self.called.add('sign')
         return NP.sign(x)
 
+    def sqrt(self, x):
+        r = NP.sqrt(x)
+        self.last_sqrt = (x, r)
+        return r
+
     def mean(self, a):
         a = onp.asarray(a, dtype=object) if px._has_sym(a) else onp.asarray(a)
         r = 0.0
@@ -808,14 +813,19 @@ def make_treigen(zero_matrix, max_secular_iters, rotation=None):
             lemma('shifted_matrix_is_positive_semidefinite', Le(U(-sig[0]), U(lam)))
             lemma('stationary', Eq(U([(sig[i] + lam) * xe[i] + be[i] for i in range(2)]), 0.0))
             lemma('step_norm_is_the_secular_norm', Eq(U(xx), U(pN)))
-            # the secular iteration stops at | |s| - Delta | <= 1e-9 Delta
-            with_sqrt = ex.symbolic or float(pN) >= 0
-            rN = NP.sqrt(pN) if with_sqrt else NAN
-            rdef = [SymBool(z3.And(U(rN) >= 0, U(rN) * U(rN) == U(pN)))] if ex.symbolic else []
-            lemma('exit_test_passed[<=]', Le(U(rN - Delta), U(1e-9 * Delta)))
-            lemma('exit_test_passed[>=]', Le(U(Delta - rN), U(1e-9 * Delta)))
-            clean_goal(ex, G('step_norm_within_1e-9_of_radius[<=]'), Le(U(xx), U((1 + 1e-9) * (1 + 1e-9) * DD)), base + lemmas + rdef)
-            clean_goal(ex, G('step_norm_within_1e-9_of_radius[>=]'), Le(U((1 - 1e-9) * (1 - 1e-9) * DD), U(xx)), base + lemmas + rdef)
+            # the secular iteration stops at | |s| - Delta | <= 1e-9 Delta; rN is the code's own last square root (of its last pNormSq)
+            arg, rN = rec.last_sqrt
+            add_goal(ex, G('last_square_root_is_of_the_last_secular_norm'), Holds(arg is last['pNormSq']))
+            rN = define(ex, 'pNorm', rN)
+            if all_finite([rN]):
+                lemma('secular_norm_is_a_nonnegative_root', Holds(z3.And(U(rN) >= 0, U(rN) * U(rN) == U(pN))) if ex.symbolic else Eq(rN * rN, pN))
+                lemma('exit_test_passed[<=]', Le(U(rN - Delta), U(1e-9 * Delta)))
+                lemma('exit_test_passed[>=]', Le(U(Delta - rN), U(1e-9 * Delta)))
+                lo, hi = Delta - 1e-9 * Delta, Delta + 1e-9 * Delta
+                clean_goal(ex, G('step_norm_within_1e-9_of_radius[<=]'), Le(U(xx), U(hi * hi)), base + lemmas)
+                clean_goal(ex, G('step_norm_within_1e-9_of_radius[>=]'), Le(U(lo * lo), U(xx)), base + lemmas)
+            else:
+                add_goal(ex, G('secular_norm_is_finite'), Holds(False))
             ex.assume(qq <= xx)
             clean_goal(ex, G('global_minimizer_over_the_ball_of_its_own_radius'), Le(U(m_x), U(m_q)), base + lemmas + [qq <= xx])
     return fn
